@@ -4,8 +4,8 @@ cs_diffrun -- run py_gql's schema differ on (base id, edits) pairs; also the has
 
     python -m mc.gen.cs_diffrun        (started by C20 with PYTHONHASHSEED=<k> in the environment)
 
-reads one JSON request per line on stdin:  {"items": [{"base": id, "edits": [...]}, ...]}
-writes one JSON answer per line:           [{"sdl": SEQ|{"error": ..}, "code": SEQ|{"error": ..}}, ...]
+reads one JSON request per line on stdin:  {"items": [{"base": id, "edits": [...]}, ...], "routes": ["sdl"]}
+writes one JSON answer per line:           [{"sdl": SEQ|{"error": ..}}, ...]
 where SEQ = [[change class name, severity name, message], ...] in the order the differ yielded them.
 The worker exits on EOF.
 """
@@ -62,9 +62,9 @@ def serve():
             try:
                 old_sm, new_sm = models(item)
             except Exception as e:  # noqa
-                out.append({"sdl": {"error": "model: %r" % e}, "code": {"error": "model: %r" % e}})
+                out.append({"sdl": {"error": "model: %r" % e}})
                 continue
-            for route in ROUTES:
+            for route in req.get("routes") or ("sdl",):
                 try:
                     res[route] = run_diff(build(old_sm, route), build(new_sm, route))
                 except Exception as e:  # noqa
